@@ -944,6 +944,7 @@ type HistGen struct {
 	Meta       bool // metadata interplay: chown/chmod/chtimes/write on one file, often back to original values
 	NoRollback bool // C03: the twin tree is not rolled back
 	Ext        bool // C13: external modifications interleaved
+	Swap       bool // a directory with tracked content is replaced by a symlink to another directory and the old paths are used again
 }
 
 func genHistCase(r *RNG, g HistGen, umask int) *HistCase {
@@ -1028,6 +1029,63 @@ func genHistCase(r *RNG, g HistGen, umask int) *HistCase {
 			og.Focus = ""
 		}
 	}
+	if g.Swap {
+		// D/C is touched (tracked), D is removed and replaced by a symlink to another directory E
+		// (which may hold an entry of the same name), then D/C is named again: the resolved path of
+		// a name must be recomputed, not remembered
+		var dirs []Entry
+		for _, e := range c.Tree {
+			if e.Kind == "dir" && !strings.Contains(e.Path, "zz") && (g.Layering != "nested" || !(strings.HasPrefix(c.Loc, e.Path+"/") || e.Path == c.Loc || strings.HasPrefix(e.Path, c.Loc+"/"))) {
+				dirs = append(dirs, e)
+			}
+		}
+		if len(dirs) >= 1 {
+			d := dirs[r.Intn(len(dirs))]
+			child := ""
+			for _, e := range c.Tree {
+				if path.Dir(e.Path) == d.Path && e.Kind != "link" {
+					child = path.Base(e.Path)
+					break
+				}
+			}
+			if child == "" {
+				child = r.Pick(namePool)
+			}
+			other := "/" + r.Pick(namePool) + "q"
+			for _, e := range dirs {
+				if e.Path != d.Path && !strings.HasPrefix(e.Path, d.Path+"/") && !strings.HasPrefix(d.Path, e.Path+"/") {
+					other = e.Path
+				}
+			}
+			pre := []Op{
+				{"write", []string{d.Path + "/" + child, itoa(os.O_WRONLY | os.O_CREATE | os.O_TRUNC), "420", "swap-1"}},
+				{"mkdirall", []string{other, "493"}},
+				{"creat", []string{other + "/" + child, "other-side"}},
+				{"removeall", []string{d.Path}},
+				{"symlink", []string{other, d.Path}},
+				{[]string{"write", "chmod", "remove", "creat"}[r.Intn(4)], nil},
+			}
+			last := &pre[len(pre)-1]
+			switch last.K {
+			case "write":
+				last.A = []string{d.Path + "/" + child, itoa(os.O_WRONLY | os.O_CREATE | os.O_TRUNC), "420", "swap-2"}
+			case "chmod":
+				last.A = []string{d.Path + "/" + child, "384"}
+			case "remove":
+				last.A = []string{d.Path + "/" + child}
+			case "creat":
+				last.A = []string{d.Path + "/" + child, "swap-3"}
+			}
+			if r.Chance(1, 3) {
+				pre = append(pre[:1], pre[3:]...) // the other directory does not get the entry first
+			}
+			for i := range pre {
+				op := pre[i]
+				c.Steps = append(c.Steps, Step{Op: &op})
+			}
+			paths = append(paths, d.Path+"/"+child, other, other+"/"+child)
+		}
+	}
 	tx := g.Rollbacks
 	if tx == 0 {
 		tx = 1
@@ -1093,6 +1151,9 @@ func histGenFor(prop string, r *RNG) HistGen {
 	}
 	if r.Chance(1, 4) {
 		g.Wild = true
+	}
+	if (prop == "C01" || prop == "C02" || prop == "C03" || prop == "C04" || prop == "C16" || prop == "C13" || prop == "C08") && r.Chance(1, 8) {
+		g.Swap = true
 	}
 	if prop == "C01" && r.Chance(1, 5) {
 		g.Layering = "nested"
